@@ -41,7 +41,10 @@ import (
 // select of a function uses names of its own); `for v := range ch` allocates an
 // int register for v whatever the element type (so only int channels are ranged over with `:=`);
 // a recovered panic of a select leaves its cases in the VM (so such selects run in a goroutine of
-// their own, which has a VM of its own).
+// their own, which has a VM of its own) — and so does, when the run has a context with a Done
+// channel, a recovered panic of a plain send (so segments that recover such a panic and go on in
+// the same goroutine are run without a Done channel: doneOff). The streams of opseq.go and
+// forms.go do not step around the defects they can reach: they predict them (forms.go).
 
 type chClass struct {
 	name, typ string
@@ -116,6 +119,11 @@ func perm(r *proto.Rand, n int) []int {
 type closedGen struct {
 	r *proto.Rand
 	b strings.Builder
+	// the segment recovers a panic raised inside reflect.Select and goes on in the same goroutine:
+	// with a Done channel OpSend is a reflect.Select as well, and what the known defects
+	// recovered-select-panic-leaves-stale-cases / recovered-send-panic-leaves-stale-cases-under-done-context
+	// leave in vm.cases breaks the next channel operation — such programs run without a Done channel
+	doneOff bool
 }
 
 func (g *closedGen) f(format string, a ...any) { fmt.Fprintf(&g.b, format, a...) }
@@ -439,6 +447,7 @@ func (g *closedGen) panics(name string) {
 	for _, x := range perm(r, 5)[:2+r.Intn(4)] {
 		switch x {
 		case 0:
+			g.doneOff = true
 			g.f("\ttry@@(\"%s send\", func() { c <- %s })\n", name, cls.val(0, k))
 		case 1:
 			g.f("\ttry@@(\"%s close-closed\", func() { close(c) })\n", name)
@@ -448,6 +457,7 @@ func (g *closedGen) panics(name string) {
 			g.f("\ttry@@(\"%s recv-closed\", func() { v, ok := <-c; println("+cls.render+", b2s@@(ok)) })\n", name, "v")
 		case 4:
 			// a select with a send case on the closed channel: in a goroutine of its own
+			g.doneOff = true // the deferred function of that goroutine sends
 			g.f("\t{\n\t\tres := make(chan string)\n\t\tgo func() {\n\t\t\tdefer func() { res <- msg@@(recover()) }()\n\t\t\tselect {\n\t\t\tcase c <- %s:\n\t\t\t\tprintln(\"sent\")\n", cls.val(1, k))
 			if r.Intn(2) == 0 {
 				g.f("\t\t\tcase vn := <-n:\n\t\t\t\t_ = vn\n\t\t\t\tprintln(\"nil channel received\")\n")
@@ -466,6 +476,7 @@ func (g *closedGen) panics(name string) {
 func genClosed(r *proto.Rand) *program {
 	n := 1 + r.Intn(3)
 	var segs, names, shapes []string
+	var off []bool
 	for i := 0; i < n; i++ {
 		g := &closedGen{r: r}
 		name := fmt.Sprintf("seg%d", i)
@@ -491,6 +502,7 @@ func genClosed(r *proto.Rand) *program {
 		}
 		segs = append(segs, g.b.String())
 		names = append(names, name)
+		off = append(off, g.doneOff)
 	}
 	mk := func(idx []int) string {
 		var b strings.Builder
@@ -510,9 +522,12 @@ func genClosed(r *proto.Rand) *program {
 		all[i] = i
 	}
 	p := &program{N: 4, M: 2, raw: mk(all), shapes: shapes}
+	for _, o := range off {
+		p.doneOff = p.doneOff || o
+	}
 	if n > 1 {
 		for i := 0; i < n; i++ {
-			p.alts = append(p.alts, &program{N: 4, M: 2, raw: mk([]int{i}), shapes: []string{shapes[i]}})
+			p.alts = append(p.alts, &program{N: 4, M: 2, raw: mk([]int{i}), shapes: []string{shapes[i]}, doneOff: off[i]})
 		}
 	}
 	return p
@@ -524,25 +539,45 @@ func genClosed(r *proto.Rand) *program {
 // comes from the same gc batch as everything else).
 type knownProg struct {
 	id, raw string
+	mode    string // context mode of the replay; empty: background
+	hang    bool   // the defect: the program never ends (run under a cancellable context for a short time)
 }
 
 var knownC14 = []knownProg{
 	// a short variable declaration in a select case is declared in the scope of the whole select
 	// statement instead of the case clause: two cases cannot declare the same name
-	{"select-comm-decl-shares-select-scope",
-		"func @MAIN@() {\n\ta := make(chan int, 1)\n\tb := make(chan int, 1)\n\ta <- 1\n\tselect {\n\tcase v := <-a:\n\t\tprintln(\"a\", v)\n\tcase v := <-b:\n\t\tprintln(\"b\", v)\n\t}\n}\n"},
+	{id: "select-comm-decl-shares-select-scope",
+		raw: "func @MAIN@() {\n\ta := make(chan int, 1)\n\tb := make(chan int, 1)\n\ta <- 1\n\tselect {\n\tcase v := <-a:\n\t\tprintln(\"a\", v)\n\tcase v := <-b:\n\t\tprintln(\"b\", v)\n\t}\n}\n"},
 	// a select that panics (send on closed channel) and is recovered leaves its cases in vm.cases:
 	// the next select of that goroutine runs them again (here it has nothing else that is ready, so
 	// that the outcome does not depend on reflect.Select's choice)
-	{"recovered-select-panic-leaves-stale-cases",
-		"func @MAIN@() {\n\tc := make(chan int)\n\tclose(c)\n\tfunc() {\n\t\tdefer func() { recover() }()\n\t\tselect {\n\t\tcase c <- 1:\n\t\t}\n\t}()\n\td := make(chan int, 1)\n\tselect {\n\tcase v := <-d:\n\t\tprintln(v)\n\tdefault:\n\t\tprintln(\"default\")\n\t}\n}\n"},
+	{id: "recovered-select-panic-leaves-stale-cases",
+		raw: "func @MAIN@() {\n\tc := make(chan int)\n\tclose(c)\n\tfunc() {\n\t\tdefer func() { recover() }()\n\t\tselect {\n\t\tcase c <- 1:\n\t\t}\n\t}()\n\td := make(chan int, 1)\n\tselect {\n\tcase v := <-d:\n\t\tprintln(v)\n\tdefault:\n\t\tprintln(\"default\")\n\t}\n}\n"},
 	// `for s := range ch`: the emitter allocates an INT register for s whatever the element type,
 	// OpRange stores the received value into the register of that number in the element's class
-	{"range-chan-declared-var-int-register",
-		"func @MAIN@() {\n\ta := \"keep\"\n\tc := make(chan string, 1)\n\tc <- \"clobber\"\n\tclose(c)\n\tfor s := range c {\n\t\t_ = s\n\t}\n\tprintln(a)\n}\n"},
+	{id: "range-chan-declared-var-int-register",
+		raw: "func @MAIN@() {\n\ta := \"keep\"\n\tc := make(chan string, 1)\n\tc <- \"clobber\"\n\tclose(c)\n\tfor s := range c {\n\t\t_ = s\n\t}\n\tprintln(a)\n}\n"},
+	// with a Done channel OpSend is reflect.Select over vm.cases: a send on a closed channel panics
+	// inside it, the clause is left before the buffer is emptied; after recover the next channel
+	// operation of the goroutine selects the stale send case again (here a select that has nothing
+	// else ready, so that the outcome does not depend on reflect.Select's choice)
+	{id: "recovered-send-panic-leaves-stale-cases-under-done-context", mode: "cancel",
+		raw: "func @MAIN@() {\n\tc := make(chan int)\n\tclose(c)\n\tfunc() {\n\t\tdefer func() { recover() }()\n\t\tc <- 1\n\t}()\n\td := make(chan int, 1)\n\tselect {\n\tcase v := <-d:\n\t\tprintln(v)\n\tdefault:\n\t\tprintln(\"default\")\n\t}\n}\n"},
+	// all send cases of a select evaluate their values into ONE register per class before the case
+	// instructions run: every send case sends the value of the last one
+	{id: "select-send-cases-share-value-register",
+		raw: "func @MAIN@() {\n\ta := make(chan int, 1)\n\tvar b chan int\n\tselect {\n\tcase a <- 1:\n\tcase b <- 2:\n\t}\n\tprintln(<-a)\n}\n"},
+	// a break in a clause of a select jumps to a label that is never given an address: the function
+	// starts again from its first instruction, for ever
+	{id: "break-in-select-clause-never-lands", hang: true,
+		raw: "func @MAIN@() {\n\ta := make(chan int, 1)\n\ta <- 1\n\tselect {\n\tcase v := <-a:\n\t\tif v == 1 {\n\t\t\tbreak\n\t\t}\n\t\tprintln(\"not reached\")\n\t}\n\tprintln(\"end\")\n}\n"},
+	// the label of a labelled break is ignored: `break L` out of the for that encloses a select
+	// leaves (at best) the select only — the for-select loop never ends
+	{id: "labelled-break-out-of-for-select-ignores-label", hang: true,
+		raw: "func @MAIN@() {\n\ta := make(chan int, 1)\n\ta <- 1\n\tn := 0\nL:\n\tfor {\n\t\tselect {\n\t\tcase v := <-a:\n\t\t\tn += v\n\t\t\tbreak L\n\t\t}\n\t}\n\tprintln(\"out\", n)\n}\n"},
 	// the emitter opens no scope for the clauses of a select: a variable declared by the case of a
 	// second select with the name of one declared by an earlier select of the function is taken
 	// for that one, whose register was released — temporaries overwrite it
-	{"select-case-var-reuses-released-register",
-		"func id@@(x string) string { return x }\n\nfunc @MAIN@() {\n\ta := make(chan string, 2)\n\ta <- \"one\"\n\ta <- \"two\"\n\tselect {\n\tcase v := <-a:\n\t\tprintln(id@@(\"x\") + v)\n\t}\n\tselect {\n\tcase v := <-a:\n\t\tprintln(id@@(\"y\") + v)\n\t}\n}\n"},
+	{id: "select-case-var-reuses-released-register",
+		raw: "func id@@(x string) string { return x }\n\nfunc @MAIN@() {\n\ta := make(chan string, 2)\n\ta <- \"one\"\n\ta <- \"two\"\n\tselect {\n\tcase v := <-a:\n\t\tprintln(id@@(\"x\") + v)\n\t}\n\tselect {\n\tcase v := <-a:\n\t\tprintln(id@@(\"y\") + v)\n\t}\n}\n"},
 }
